@@ -168,7 +168,8 @@ CHECKS = {
         category="model_checking", design_ref="DESIGN.md 5/C19",
         text="TLC checks exhaustively (<=4 pages x <=2 items, <=12 calls, static and stream) that the cursor algorithm as coded "
              "agrees with the statement-level oracle and yields item k at the k-th yield; TLC-drawn behaviours are replayed into the real "
-             "static/dynamic/stream paginators and traces recorded on collections up to 20x10 are validated by TLC against the same actions.",
+             "static/dynamic/stream paginators and traces recorded on collections up to 20x10 are validated by TLC against the same actions. "
+             "Growth: Collection.tla / CollectionSlices.tla (the rest of the collection package) replayed and re-judged by CollectionTrace.tla (observations only).",
         note="Trusted: TLC, the harness pages (IStaticPage/IPage/IStream implementations), wall-clock grace period of 120 ms with stalled steps skipped.",
         technique="TLA+ spec + TLC exhaustive; behaviour replay into code; TLC trace validation"),
     "C20": dict(
